@@ -1,7 +1,102 @@
 import AmqModel.Model.ConnRun
-namespace AmqModel.Props.C13
-open AmqModel.Conn
+import AmqModel.Lemmas.Conn
+import AmqModel.Lemmas.ConnC13
+/-!
+# C13 — confirms, returns and blocked notices are forwarded verbatim, in order
 
-theorem placeholder : (Conn.init 1 1).dead = false := rfl
+Property theorems only; the computation lemmas live in `AmqModel/Lemmas/ConnC13.lean`.
+-/
+namespace AmqModel.Props.C13
+open AmqModel.Conn AmqModel.Collector
+
+/-- A publisher confirmation on channel `n` reaches the channel's current confirm listener
+    unchanged (ack or nack, delivery tag, multiple flag), appended at the end of its queue; nothing
+    else changes and no error results. -/
+theorem confirm_forwarded (c : Conn) (n : Nat) (slot : Slot) (l : Label) (q : LQ) (ack : Bool) (dtag : Nat) (mult : Bool) (dc df : Bytes)
+    (hs : c.st = .steady) (hn : n ≠ 0) (hslot : lookupN n c.slots = some slot)
+    (hl : slot.confL = some l) (hq : lookupS l c.lqs = some q) (hrx : q.rxAlive = true) :
+    process c (.method n 60 (if ack then 80 else 120) [.nat dtag, .bool mult]) dc df =
+      ({ c with lqs := setS l { q with msgs := q.msgs ++ [.confirm ack dtag mult] } c.lqs }, none) :=
+  process_confirm_alive hs hn hslot hl hq hrx ack dtag mult dc df
+
+/-- With no listener the confirmation is discarded: the state is unchanged, no error. -/
+theorem confirm_without_listener (c : Conn) (n : Nat) (slot : Slot) (mid dtag : Nat) (mult : Bool) (dc df : Bytes)
+    (hs : c.st = .steady) (hn : n ≠ 0) (hslot : lookupN n c.slots = some slot) (hm : mid = 80 ∨ mid = 120)
+    (hl : slot.confL = none) :
+    process c (.method n 60 mid [.nat dtag, .bool mult]) dc df = (c, none) :=
+  process_confirm_none hs hn hslot hl hm dtag mult dc df
+
+/-- With a dropped listener it is discarded too; the dead listener is forgotten; no error. -/
+theorem confirm_dropped_listener (c : Conn) (n : Nat) (slot : Slot) (l : Label) (q : LQ) (mid dtag : Nat) (mult : Bool) (dc df : Bytes)
+    (hs : c.st = .steady) (hn : n ≠ 0) (hslot : lookupN n c.slots = some slot) (hm : mid = 80 ∨ mid = 120)
+    (hl : slot.confL = some l) (hq : lookupS l c.lqs = some q) (hrx : q.rxAlive = false) :
+    process c (.method n 60 mid [.nat dtag, .bool mult]) dc df = (setSlot c n { slot with confL := none }, none) :=
+  process_confirm_dead hs hn hslot hl hq hrx hm dtag mult dc df
+
+/-- IN ORDER: a run of confirmations processed one after another with a live listener extends its
+    queue by exactly those confirmations, in that order. -/
+theorem confirms_in_order (c : Conn) (n : Nat) (slot : Slot) (l : Label) (q : LQ) (cs : List (Bool × Nat × Bool))
+    (hs : c.st = .steady) (hn : n ≠ 0) (hslot : lookupN n c.slots = some slot)
+    (hl : slot.confL = some l) (hq : lookupS l c.lqs = some q) (hrx : q.rxAlive = true) :
+    let c' := cs.foldl (fun acc x => (process acc (.method n 60 (if x.1 then 80 else 120) [.nat x.2.1, .bool x.2.2]) [] []).1) c
+    lookupS l c'.lqs = some { q with msgs := q.msgs ++ cs.map (fun x => .confirm x.1 x.2.1 x.2.2) } :=
+  confirms_fold hn hl cs c q hs hslot hq hrx
+
+/-- Blocked / unblocked notices reach the connection's listener the same way. -/
+theorem blocked_forwarded (c : Conn) (l : Label) (q : LQ) (reason dc df : Bytes)
+    (hs : c.st = .steady) (hl : c.blockedL = some l) (hq : lookupS l c.lqs = some q) (hrx : q.rxAlive = true) :
+    process c (.method 0 10 60 [.bytes reason]) dc df =
+      ({ c with lqs := setS l { q with msgs := q.msgs ++ [.blocked reason] } c.lqs }, none) ∧
+    (∀ fields, process c (.method 0 10 61 fields) dc df =
+      ({ c with lqs := setS l { q with msgs := q.msgs ++ [.unblocked] } c.lqs }, none)) := by
+  refine ⟨?_, fun fields => ?_⟩
+  · rw [process_blocked hs, trySendBlocked_alive hl hq hrx]
+  · rw [process_unblocked hs, trySendBlocked_alive hl hq hrx]
+
+theorem blocked_without_listener (c : Conn) (reason dc df : Bytes) (hs : c.st = .steady) (hl : c.blockedL = none) :
+    process c (.method 0 10 60 [.bytes reason]) dc df = (c, none) := by
+  rw [process_blocked hs, trySendBlocked_none hl]
+
+/-- A returned message reaches the channel's current return listener with all its parts. -/
+theorem return_forwarded (c : Conn) (n : Nat) (slot : Slot) (l : Label) (q : LQ) (code : Nat) (text ex rk props body : Bytes)
+    (hl : slot.retL = some l) (hq : lookupS l c.lqs = some q) (hrx : q.rxAlive = true) :
+    dispatchContent c n slot ⟨.ret code text ex rk, props, body⟩ =
+      ({ c with lqs := setS l { q with msgs := q.msgs ++ [.ret code text ex rk props body] } c.lqs }, none) :=
+  dispatchContent_ret_alive c n code text ex rk props body hl hq hrx
+
+/-- Registering a new listener replaces the old one in the slot (the old sender is dropped). -/
+theorem register_replaces (c : Conn) (n : Nat) (slot : Slot) (l' : Option Label)
+    (hn : n ≠ 0) (hslot : lookupN n c.slots = some slot) :
+    processChannelMessage c n (.setConfirm l') = (setSlot c n { slot with confL := l' }, none) ∧
+    processChannelMessage c n (.setReturn l') = (setSlot c n { slot with retL := l' }, none) :=
+  ⟨pcm_setConfirm hn hslot l', pcm_setReturn hn hslot l'⟩
+
+/-- … so the old listener's queue becomes disconnected once nothing else refers to it. -/
+theorem replaced_listener_disconnected (c : Conn) (l : Label)
+    (h1 : c.blockedL ≠ some l) (h2 : l ∉ c.blockedFifo)
+    (h3 : ∀ p ∈ c.slots, p.2.retL ≠ some l ∧ p.2.confL ≠ some l)
+    (h4 : ∀ p ∈ c.links, ∀ m ∈ p.2.fifo, m ≠ .setReturn (some l) ∧ m ≠ .setConfirm (some l)) :
+    lstTxAlive c l = false :=
+  lstTxAlive_false c l h1 h2 h3 h4
+
+/-- REGISTERED BEFORE PUBLISH. Submissions of one handle reach the I/O thread in submission order
+    (the queue is FIFO and the handler drains it front to back): a listener registration submitted
+    before a publish is in force before the publish's bytes are handed to the output buffer — hence
+    before the server can react to them. -/
+theorem submit_appends (c : Conn) (label : Label) (lid : Nat) (m : Msg)
+    (hh : lookupS label c.handles = some lid) (hio : (getLink c lid).ioAlive = true)
+    (hroom : (getLink c lid).fifo.length < c.bound) :
+    (clientSend c label m).2 = .sent ∧
+    (getLink (clientSend c label m).1 lid).fifo = (getLink c lid).fifo ++ [m] :=
+  clientSend_sent m hh hio hroom
+
+theorem registration_then_publish (c : Conn) (n : Nat) (slot : Slot) (l : Label) (bytes : Bytes)
+    (hn : n ≠ 0) (hslot : lookupN n c.slots = some slot) (hseal : c.sealed = false)
+    (hf : (getLink c slot.lid).fifo = [.setConfirm (some l), .send bytes])
+    (hca : (getLink c slot.lid).clientAlive = true) :
+    let r := handleEvent c (.chan n)
+    r.2.2 = none ∧ r.1.out = c.out ++ bytes ∧
+    (∃ s', lookupN n r.1.slots = some s' ∧ s'.confL = some l) :=
+  registration_then_publish_aux c n slot l bytes hn hslot hseal hf hca
 
 end AmqModel.Props.C13
